@@ -18,6 +18,14 @@ type RecCron struct {
 	Jobs      map[string]*RecJob // key: the id the engine registered (as given)
 	Log       []string
 	FailNext  bool
+	// ByLocation: registrations are keyed by (location, id) as the crolt service
+	// keys them (account = location name); otherwise by id alone, as the built-in
+	// cron does.
+	ByLocation bool
+	// ViaInstance: a tick is delivered to the Location instance captured at
+	// registration (what the built-in cron's closure does); otherwise the location
+	// is resolved by name at tick time (what an external cron's HTTP call does).
+	ViaInstance bool
 	Resolve   func(ctx *core.Context, location string) (*core.Location, error)
 }
 
@@ -27,6 +35,16 @@ type RecJob struct {
 	Event    string
 	Schedule string
 	Ctx      *core.Context
+	Loc      *core.Location
+}
+
+func (c *RecCron) key(ctx *core.Context, id string) string {
+	if c.ByLocation {
+		if l := ctx.Location(); l != nil {
+			return l.Name + "\x00" + id
+		}
+	}
+	return id
 }
 
 func NewRecCron(persistent bool) *RecCron {
@@ -47,7 +65,7 @@ func (c *RecCron) ScheduleEvent(ctx *core.Context, se *cron.ScheduledEvent) erro
 	if _, _, err := cron.ParseSchedule(se.Schedule); err != nil {
 		return err
 	}
-	c.Jobs[se.Id] = &RecJob{Id: se.Id, Location: locName, Event: se.Event, Schedule: se.Schedule, Ctx: ctx}
+	c.Jobs[c.key(ctx, se.Id)] = &RecJob{Id: se.Id, Location: locName, Event: se.Event, Schedule: se.Schedule, Ctx: ctx, Loc: ctx.Location()}
 	c.Log = append(c.Log, fmt.Sprintf("schedule %s@%s %s", se.Id, locName, se.Schedule))
 	return nil
 }
@@ -59,8 +77,8 @@ func (c *RecCron) Schedule(ctx *core.Context, sw *cron.ScheduledWork) error {
 func (c *RecCron) Rem(ctx *core.Context, id string) (bool, error) {
 	c.mu.Lock()
 	defer c.mu.Unlock()
-	_, have := c.Jobs[id]
-	delete(c.Jobs, id)
+	_, have := c.Jobs[c.key(ctx, id)]
+	delete(c.Jobs, c.key(ctx, id))
 	locName := ""
 	if l := ctx.Location(); l != nil {
 		locName = l.Name
@@ -70,6 +88,25 @@ func (c *RecCron) Rem(ctx *core.Context, id string) (bool, error) {
 }
 
 func (c *RecCron) Persistent() bool { return c.IsPersist }
+
+// Keys lists the registration keys (argument of Tick), sorted.
+func (c *RecCron) Keys() []string {
+	c.mu.Lock()
+	defer c.mu.Unlock()
+	var out []string
+	for k := range c.Jobs {
+		out = append(out, k)
+	}
+	sort.Strings(out)
+	return out
+}
+
+// Job returns the registration stored under key (nil if none).
+func (c *RecCron) Job(key string) *RecJob {
+	c.mu.Lock()
+	defer c.mu.Unlock()
+	return c.Jobs[key]
+}
 
 // Held lists the registrations as "id@location".
 func (c *RecCron) Held() []string {
@@ -95,8 +132,11 @@ func (c *RecCron) Tick(id string) (*core.FindRules, error) {
 	if err := json.Unmarshal([]byte(j.Event), &ev); err != nil {
 		return nil, err
 	}
-	loc, err := c.Resolve(j.Ctx, j.Location)
-	if err != nil {
+	var loc *core.Location
+	var err error
+	if c.ViaInstance {
+		loc = j.Loc
+	} else if loc, err = c.Resolve(j.Ctx, j.Location); err != nil {
 		return nil, err
 	}
 	fr, cond := loc.ProcessEvent(j.Ctx, ev)
